@@ -689,19 +689,20 @@ func (tree *MutableTree) GetVersioned(key []byte, version int64) ([]byte, error)
 			}
 
 			if isFastCacheEnabled {
-				fastNode, _ := tree.ndb.GetFastNode(key)
-				if fastNode == nil && version == tree.ndb.getCachedLatestVersion() {
+				// if the fast node cannot be read, fall back to the tree below
+				fastNode, err := tree.ndb.GetFastNode(key)
+				if err == nil && fastNode == nil && version == tree.ndb.getCachedLatestVersion() {
 					return nil, nil
 				}
 
-				if fastNode != nil && fastNode.GetVersionLastUpdatedAt() <= version {
+				if err == nil && fastNode != nil && fastNode.GetVersionLastUpdatedAt() <= version {
 					return fastNode.GetValue(), nil
 				}
 			}
 		}
 		t, err := tree.GetImmutable(version)
 		if err != nil {
-			return nil, nil
+			return nil, err
 		}
 		value, err := t.Get(key)
 		if err != nil {
